@@ -17,7 +17,7 @@ use std::rc::Rc;
 use std::task::{Context, Poll, Waker};
 use yash_env::job::{Pid, ProcessResult, ProcessState};
 use yash_env::semantics::ExitStatus;
-use yash_env::system::r#virtual::{Process, SIGCONT, SIGKILL, SIGSTOP, SIGTERM, SIGUSR1, VirtualSystem};
+use yash_env::system::r#virtual::{Process, SIGCONT, SIGKILL, SIGSTOP, SIGTERM, SIGTSTP, SIGUSR1, VirtualSystem};
 use yash_env::system::r#virtual::SIGCHLD;
 use yash_env::system::{CaughtSignals as _, Disposition, Errno, Exit as _, SendSignal as _, SetPgid as _, Sigaction as _, Sigmask as _, SigmaskOp, Wait as _};
 
@@ -30,6 +30,8 @@ pub enum Sig {
     Usr1,
     /// signal 0: existence test
     Null,
+    /// a stop signal other than SIGSTOP (default action, never blocked here)
+    Tstp,
 }
 
 #[derive(Clone, Debug, Serialize, Deserialize, PartialEq)]
@@ -79,7 +81,7 @@ pub fn generate(rng: &mut Rng, long: bool) -> KHist {
             KOp::Kill(
                 slot(rng),
                 slot(rng),
-                *rng.pick(&[Sig::Term, Sig::Term, Sig::Kill, Sig::Stop, Sig::Stop, Sig::Cont, Sig::Cont, Sig::Usr1, Sig::Null]),
+                *rng.pick(&[Sig::Term, Sig::Term, Sig::Kill, Sig::Stop, Sig::Stop, Sig::Tstp, Sig::Cont, Sig::Cont, Sig::Usr1, Sig::Null]),
             )
         } else {
             match x - w_wait - w_kill {
@@ -90,7 +92,7 @@ pub fn generate(rng: &mut Rng, long: bool) -> KHist {
                 9 if groups => KOp::KillGroup(
                     slot(rng),
                     if rng.below(4) == 0 { 255 } else { slot(rng) },
-                    *rng.pick(&[Sig::Term, Sig::Stop, Sig::Cont, Sig::Cont, Sig::Usr1, Sig::Null, Sig::Kill]),
+                    *rng.pick(&[Sig::Term, Sig::Stop, Sig::Tstp, Sig::Cont, Sig::Cont, Sig::Usr1, Sig::Null, Sig::Kill]),
                 ),
                 _ => KOp::Action(slot(rng), rng.bool(), rng.below(3) as u8),
             }
@@ -208,7 +210,9 @@ pub fn run(h: &KHist, reach: &mut BTreeMap<&'static str, u64>) -> Option<(String
                     procs[t].unreported = false;
                     procs[t].pending.clear();
                 }
-                Sig::Stop => {
+                // (a stop signal that reaches a stopped process is held back and then
+            // discarded by SIGCONT: it never has an effect)
+            Sig::Stop | Sig::Tstp => {
                     if procs[t].st == St::Running {
                         procs[t].st = St::Stopped;
                         procs[t].unreported = true;
@@ -307,6 +311,7 @@ pub fn run(h: &KHist, reach: &mut BTreeMap<&'static str, u64>) -> Option<(String
                     Sig::Cont => Some(SIGCONT),
                     Sig::Usr1 => Some(SIGUSR1),
                     Sig::Null => None,
+                    Sig::Tstp => Some(SIGTSTP),
                 };
                 let got = poll_now(sys_of(procs[f].pid).kill(procs[t].pid, number));
                 // model
@@ -422,6 +427,7 @@ pub fn run(h: &KHist, reach: &mut BTreeMap<&'static str, u64>) -> Option<(String
                     Sig::Cont => Some(SIGCONT),
                     Sig::Usr1 => Some(SIGUSR1),
                     Sig::Null => None,
+                    Sig::Tstp => Some(SIGTSTP),
                 };
                 let got = poll_now(sys_of(procs[f].pid).kill(target, number));
                 // a reaped process no longer exists; a zombie does but is not affected
